@@ -124,12 +124,25 @@ def rule_er2(ctx: Ctx) -> RuleResult:
     site = ctx.site("rxsci/error/router.py", "create_error_router._route_to_dead_letter.route_to_dead_letter.on_subscribe", kind="mux")
     r.instances += 1
 
+    # the dead-letter observer: the closure variable in which the subscribe function of the errors observable
+    # (the rx.create site of the module) keeps its observer
+    dl_names = set()
+    for s_ in ctx.all_sites:
+        if s_.anchor_rel == "rxsci/error/router.py" and s_.ctor == "create" and not s_.error:
+            for p_ in ctx.fn_paths(s_.module, s_.subscribe_fn, roles=s_.roles):
+                for e_ in p_.trace:
+                    if e_.k == "nonlocal" and e_.value == ("obs", "down"):
+                        dl_names.add(e_.name)
+    if len(dl_names) != 1:
+        raise AnalysisError("rxsci/error/router.py: the errors observable must keep its observer in one closure variable; found %s" % sorted(dl_names))
+    DL = next(iter(dl_names))
+
     def is_dl(m):
-        return m.target[0] == "free" and m.target[1] == "dead_letter_observer"
+        return m.target[0] == "free" and m.target[1] == DL
 
     def dl_present(p):
         for e in p.trace:
-            if e.k == "decision" and any(x[0] == "free" and x[1] == "dead_letter_observer" for x in subterms(e.test)):
+            if e.k == "decision" and any(x[0] == "free" and x[1] == DL for x in subterms(e.test)):
                 t = e.test
                 if t[0] == "cmp" and t[1] in ("IsNot", "NotEq") and ("const", None) in (t[2], t[3]):
                     return e.outcome
